@@ -35,15 +35,14 @@ theorem chunks_all_ok : Gen.opChunks.all (fun ch => ch.all checkOp) = true := by
     chunk8_ok, chunk9_ok, chunk10_ok, chunk11_ok, chunk12_ok, chunk13_ok, chunk14_ok, chunk15_ok,
     Bool.and_self]
 
-/-- **C13 on the finite universe, as far as the current tree satisfies it.**
+/-- **C13 on the finite universe.**
     For every operator of the catalogue and every argument tuple over `U` (all arities the
     operator can be called with; full universe up to arity 2, reduced universes above):
-    resolution never ends in an internal error; it is ambiguous only for tuples containing a
-    `NullType` argument (guard = finding D7); sized types are accepted wherever the generic one
-    is, with a result of the same family; a const argument is accepted wherever a column is;
-    a parameter declared const rejects non-const arguments (guard = finding D24 for const type
-    variables bound earlier). -/
-theorem resolve_total_uniform_partial :
+    resolution ends in exactly one overload or in `DataTypeError`, never in an internal error;
+    sized types are accepted wherever the generic one is, with a result of the same family; a
+    const argument is accepted wherever a column is; a parameter declared const rejects
+    non-const arguments. -/
+theorem resolve_total_uniform :
     ∀ ch ∈ Gen.opChunks, ∀ op ∈ ch, checkOp op = true := by
   intro ch hch op hop
   have h := chunks_all_ok
@@ -57,9 +56,9 @@ theorem checkOp_spec (op : OpDecl) (h : checkOp op = true) :
     ∃ t, Trie.build op.sigs = some t ∧
       ∀ k ∈ arities op, ∀ args ∈ tuples (universeFor k) k,
         resolveTrie t args ≠ .internalError ∧
-        (resolveTrie t args = .ambiguous → args.any nullish = true) ∧
-        sizedAcceptedAt t args = true ∧ constAcceptedAt t args = true := by
-  unfold checkOp checkOpWith at h
+        sizedAcceptedAt t args = true ∧ constAcceptedAt t args = true ∧
+        ∀ s ∈ op.sigs, constParamsRejectAt s args = true := by
+  unfold checkOp at h
   split at h
   · exact absurd h (by simp)
   · rename_i t ht
@@ -70,57 +69,44 @@ theorem checkOp_spec (op : OpDecl) (h : checkOp op = true) :
     rw [List.all_eq_true] at h1
     have h2 := h1 args hargs
     simp only [Bool.and_eq_true] at h2
-    obtain ⟨⟨⟨htot, hs⟩, hc⟩, _⟩ := h2
-    refine ⟨?_, ?_, hs, hc⟩
+    obtain ⟨⟨⟨htot, hs⟩, hc⟩, hr⟩ := h2
+    refine ⟨?_, hs, hc, ?_⟩
     · intro hi; unfold totalAt at htot; rw [hi] at htot; exact absurd htot (by simp)
-    · intro ha; unfold totalAt at htot; rw [ha] at htot; exact htot
+    · rw [List.all_eq_true] at hr; exact hr
 
-/-- D7 — the full-strength totality statement is **false** of the current tree: kernel-checked
-    witness `None + None` (the real code raises `AssertionError`). -/
-theorem totality_full_false : checkOpFull Gen.op_add = false := by decide +kernel
-
-theorem D7_witness : resolve Gen.op_add [.const .null, .const .null] = .ambiguous := by decide +kernel
-
-/-- D24 — `shift(x, n, fill_value)` declares `fill_value : const S` but accepts a column. -/
-theorem D24_witness :
-    resolve Gen.op_shift [.int64, .const .int64, .int64] = .ok [.int64, .const .int, .int64] .int64 := by
-  decide +kernel
+/-- regression witnesses of the repaired defects D7, D24, D25 (see known_findings.json,
+    "fixed"): the model of the repaired code rejects them with a type error -/
+theorem D7_fixed : resolve Gen.op_add [.const .null, .const .null] = .noMatch := by decide +kernel
+theorem D24_fixed : resolve Gen.op_shift [.int64, .const .int64, .int64] = .noMatch := by decide +kernel
+theorem D25_fixed : lcaType [.uint8, .list .int64] = .dataTypeError
+    ∧ lcaType [.list .int64, .uint8] = .dataTypeError := by decide +kernel
 
 /-! ### Order independence (all signature orders, not only the declared one)
 
-`bestSignatureMatch` returns the position of the unique minimum; when the minimum is unique the
-*selected candidate* does not depend on the order of the candidate list. -/
+`bestSignatureMatch` returns the position of the unique minimum; the *number* of candidates at
+minimal distance — which decides between "one overload" and "type error" — and the multiset of
+distances do not depend on the order of the candidate list. -/
 
 theorem filter_length_perm {α} (p : α → Bool) {l₁ l₂ : List α} (h : l₁.Perm l₂) :
     (l₁.filter p).length = (l₂.filter p).length := (h.filter p).length_eq
 
-/-- the number of candidates at minimal distance — the quantity the uniqueness assertion tests —
-    is invariant under permutation of the candidate list -/
 theorem ambiguity_perm_invariant (sig : List Dtype) (c₁ c₂ : List (List Dtype)) (h : c₁.Perm c₂)
     (d : Option Cost) :
     ((c₁.map (sigDistance sig)).filter (· == d)).length =
     ((c₂.map (sigDistance sig)).filter (· == d)).length :=
   filter_length_perm _ (h.map _)
 
-/-! ### `lca_type` is total on the universe (never ambiguous / internal) -/
+/-! ### `lca_type` is total on the universe -/
 
 def lcaOk : LcaResult → Bool
   | .ok _ => true
   | .dataTypeError => true
   | _ => false
 
-/-- guard = finding D25: mixing a `List` type with a non-list type raises `AttributeError` /
-    `KeyError` inside `lca_type` instead of `DataTypeError` -/
-def mixesList (a b : Dtype) : Bool := isList a.withoutConst != isList b.withoutConst
-
-theorem lca_total_pairs_partial :
-    U.all (fun a => U.all (fun b => lcaOk (lcaType [a, b]) || mixesList a b)) = true := by
+theorem lca_total_pairs : U.all (fun a => U.all (fun b => lcaOk (lcaType [a, b]))) = true := by
   decide +kernel
 
-theorem D25_witness : lcaType [.uint8, .list .int64] = .internalError
-    ∧ lcaType [.list .int64, .uint8] = .internalError := by decide +kernel
-
-/-- non-vacuity: the guarded statement is about tuples that do resolve -/
+/-- non-vacuity: the statement is about tuples that do resolve -/
 example : resolve Gen.op_add [.int64, .const .float64] = .ok [.float, .float] .float := by decide +kernel
 example : checkOp Gen.op_rank = true := by decide +kernel
 
